@@ -28,7 +28,7 @@ func vhReset() {
 	vos.Reset()
 	vclock.Reset()
 	vrand.Reset()
-	vos.Mkdir(vhRoot, vclock.Last())
+	vos.PutDir(vhRoot, vclock.Last())
 }
 
 // vhConf is the base configuration: background collection off (no ticker), the default
